@@ -290,6 +290,12 @@ def gen_spec(rng: random.Random, size: int = 8, features: dict | None = None, ma
         except IllFormed:
             continue
         if sum(len(v) for v in den.values()) <= max_tokens * 4 and max((len(v) for v in den.values()), default=0) <= max_tokens:
+            # arrival orders: in a third of the workflows one or two transformers (with few tokens) are slow, so that a whole
+            # branch reaches the joins / combinators / job pipelines downstream later than its siblings (`den` does not change)
+            slow = [n for n in spec["nodes"] if n["kind"] == "tf" and len(den[n["ins"][0]]) <= 6]
+            if slow and rng.random() < 0.35:
+                for n in rng.sample(slow, min(len(slow), rng.randint(1, 2))):
+                    n["delay"] = rng.choice((0.02, 0.05))
             return spec
     raise RuntimeError("generator could not produce a well-formed workflow")
 
